@@ -67,7 +67,7 @@ var allowed = map[string]bool{"A": true, "5": true, "3": true}
 
 func main() {
 	c := vk.Init("C07")
-	c.Rule("histories that contain no acceptable Logon (refused and damaged Logons, Heartbeat, TestRequest, Logout, application, unknown types, ResendRequests over 8 ranges incl. e=0, b>e, b=0, beyond the stored range, and the local calls Logout() and Stop() before any logon), both roles, with an empty message store and with a store preloaded through the public Save/SetSeqNum API with 5 messages of an earlier session: EXHAUSTIVE up to length 2 (quick) / 3 (thorough) plus random histories up to length 12; plus real-time idle scenarios (2.6 s of silence on an acceptor before any Logon, after a Logon with an out-of-range interval, after a Logon the application's callback refused; an initiator with N=1 whose Logon is never answered). Oracle: MsgType of every message on Outgoing() must be A, 5 or 3. distinct = (role, store, sequence); non-trivial = at least one message was emitted or a ResendRequest was in the history")
+	c.Rule("histories that contain no acceptable Logon (refused and damaged Logons, Heartbeat, TestRequest, Logout, application, unknown types, ResendRequests over 8 ranges incl. e=0, b>e, b=0, beyond the stored range, and the local calls Logout() and Stop() before any logon), both roles, with an empty message store and with a store preloaded through the public Save/SetSeqNum API with 5 messages of an earlier session: EXHAUSTIVE up to length 2 (quick) / 3 (thorough) plus random histories up to length 12; plus real-time idle scenarios (2.6 s of silence on an acceptor before any Logon, after a Logon with an out-of-range interval, after a Logon the application's callback refused; an initiator with N=1 whose Logon is never answered). Every fourth history runs with Opts.Tags.HeartBtInt and .EncryptedMethod left at 0 (only the tags the session needs are configured). Oracle: MsgType of every message on Outgoing() must be A, 5 or 3. distinct = (role, store, sequence); non-trivial = at least one message was emitted or a ResendRequest was in the history")
 	c.Assume("the application itself sends nothing before logon (the statement is about what the session transmits on its own)")
 	maxLen := c.Pick(2, 3)
 	nRandom := c.Pick(600, 20000)
@@ -123,7 +123,14 @@ func main() {
 		if j.preload {
 			preload(st, 5)
 		}
-		r, err := rig.NewStepRig(rig.StepCfg{Role: j.role, HeartBtInt: 10, Limits: &session.IntLimits{Min: 5, Max: 60}, Counter: st, Messages: st, CloseTimeout: time.Minute,
+		var optsMod func(*session.Opts)
+		if i%4 == 3 {
+			// an application that configures only the tags the session cannot do without (MsgType, MsgSeqNum): the two
+			// others only name the offending field in a Reject
+			desc += " [Opts.Tags.HeartBtInt and .EncryptedMethod left 0]"
+			optsMod = func(o *session.Opts) { o.Tags.HeartBtInt, o.Tags.EncryptedMethod = 0, 0 }
+		}
+		r, err := rig.NewStepRig(rig.StepCfg{Role: j.role, HeartBtInt: 10, Limits: &session.IntLimits{Min: 5, Max: 60}, Counter: st, Messages: st, CloseTimeout: time.Minute, OptsMod: optsMod,
 			OnLogon: func(ls *session.LogonSettings) error {
 				if !rig.Approve(ls.Username, ls.Password) {
 					return fmt.Errorf("refused")
